@@ -452,3 +452,8 @@ def run(ck, facts):
                               "the flush filter depends on %s (calls %s): some write parameters would not be flushed" % (sorted(free) or "nothing but p", calls), C.loc(g, c.get("ln")))
     if not found:
         ck.bad("R7", "macro::gen_custom_type_method/flush-filter", "anchor `let write_flushes = …filter(..)` not found", C.loc(g))
+
+    # --- R9 C++ std::string-backed writer (token rules on runtime.hpp.jinja; C++ text is not type-resolved)
+    ck.rule("R9", "C++ writer adapter: _grow resizes to the requested size then publishes cap = length() and a fresh buf; _flush trims to len; WriteFromString starts with len = cap = length()")
+    import c02
+    c02.cpp_writer_rules(ck, "R9")
